@@ -18,6 +18,11 @@ Part 4  `LexemeAt` for punctuation, one- and two-character operators, identifier
         starting with a separator character is admissible for all of them.  (Multi-part) string
         literals and the `name"…"` pair are in `PoryProofs/LexString.lean` (`okStr`).
 Nothing is partial.
+
+F16 (fixed in lexer.go and in the model): `skipToNextLine` no longer stops at a NUL, so `skipLineE`
+stops at a newline only and the text of a comment in `Skips` / `Sep` / `SepLast` may contain any
+character except newline, NUL included.  A NUL outside a comment is not a separator (the lexer
+returns an `EOF` token for it), so `Sep` admits whitespace and comments only.
 -/
 namespace Pory.C19b
 open Pory
@@ -39,7 +44,7 @@ def eraseOut (o : List Tok × LS × Bool) : EOut := (o.1.map erase, o.2.1.inp, o
 
 def skipLineE : List Char → List Char
   | [] => []
-  | c :: r => if c != '\n' && c != NUL then skipLineE r else r
+  | c :: r => if c != '\n' then skipLineE r else r
 
 def skipCommentsE : Nat → List Char → List Char
   | 0, inp => inp
@@ -444,19 +449,18 @@ theorem skipAllE_comment (inp : List Char) (h : isCommentStart inp = true) :
 theorem skipAllE_ws (c : Char) (r : List Char) (h : isWs c = true) : skipAllE (c :: r) = skipAllE r := by
   rw [skipAllE, List.dropWhile_cons, if_pos h, skipAllE]
 
-theorem skipLineE_comment (body : List Char) (d : Char) (next : List Char)
-    (hb : ∀ c ∈ body, c ≠ '\n' ∧ c ≠ NUL) (hd : d = '\n' ∨ d = NUL) :
-    skipLineE (body ++ d :: next) = next := by
+theorem skipLineE_comment (body : List Char) (next : List Char)
+    (hb : ∀ c ∈ body, c ≠ '\n') : skipLineE (body ++ '\n' :: next) = next := by
   induction body with
   | nil =>
     rw [List.nil_append, skipLineE, if_neg]
-    rcases hd with rfl | rfl <;> decide
+    decide
   | cons c body ih =>
     have := hb c (List.mem_cons_self ..)
     rw [List.cons_append, skipLineE, if_pos (by simpa using this)]
     exact ih fun x hx => hb x (List.mem_cons_of_mem _ hx)
 
-theorem skipLineE_body (body : List Char) (hb : ∀ c ∈ body, c ≠ '\n' ∧ c ≠ NUL) :
+theorem skipLineE_body (body : List Char) (hb : ∀ c ∈ body, c ≠ '\n') :
     skipLineE body = [] := by
   induction body with
   | nil => rfl
@@ -470,7 +474,7 @@ theorem skipAllE_of_skips {inp rest : List Char} (h : Skips inp rest) : skipAllE
   induction h with
   | done => rfl
   | ws c r rest hw _ ih => rw [skipAllE_ws c r hw, ih]
-  | comment body d next rest hs hb hd _ ih => rw [skipAllE_comment _ hs, skipLineE_comment body d next hb hd, ih]
+  | comment body next rest hs hb _ ih => rw [skipAllE_comment _ hs, skipLineE_comment body next hb, ih]
   | commentEnd body hs hb => rw [skipAllE_comment _ hs, skipLineE_body body hb]
 
 theorem nextE_of_skips {inp rest : List Char} (h : Skips inp rest) : nextE inp = nextE rest := by
@@ -514,20 +518,21 @@ structure Lexeme where
   spec : LexemeAt ok chars toks
 
 /-- A separator: a (possibly empty) run of whitespace and complete comments (`#…` or `//…` up to
-and including the next newline or NUL). -/
+and including the next newline).  The text of a comment may contain any character except newline,
+NUL included (finding F16, fixed). -/
 inductive Sep : List Char → Prop
   | nil : Sep []
   | ws (c : Char) (r : List Char) : isWs c = true → Sep r → Sep (c :: r)
-  | comment (body : List Char) (d : Char) (r : List Char) : isCommentStart body = true →
-      (∀ c ∈ body, c ≠ '\n' ∧ c ≠ NUL) → (d = '\n' ∨ d = NUL) → Sep r → Sep (body ++ d :: r)
+  | comment (body : List Char) (r : List Char) : isCommentStart body = true →
+      (∀ c ∈ body, c ≠ '\n') → Sep r → Sep (body ++ '\n' :: r)
 
 /-- The last separator of a source may end in an unterminated comment. -/
 inductive SepLast : List Char → Prop
   | sep (s : List Char) : Sep s → SepLast s
   | ws (c : Char) (r : List Char) : isWs c = true → SepLast r → SepLast (c :: r)
-  | comment (body : List Char) (d : Char) (r : List Char) : isCommentStart body = true →
-      (∀ c ∈ body, c ≠ '\n' ∧ c ≠ NUL) → (d = '\n' ∨ d = NUL) → SepLast r → SepLast (body ++ d :: r)
-  | open_ (body : List Char) : isCommentStart body = true → (∀ c ∈ body, c ≠ '\n' ∧ c ≠ NUL) →
+  | comment (body : List Char) (r : List Char) : isCommentStart body = true →
+      (∀ c ∈ body, c ≠ '\n') → SepLast r → SepLast (body ++ '\n' :: r)
+  | open_ (body : List Char) : isCommentStart body = true → (∀ c ∈ body, c ≠ '\n') →
       SepLast body
 
 theorem isCommentStart_append {body : List Char} (h : isCommentStart body = true) (x : List Char) :
@@ -551,18 +556,18 @@ theorem Sep.skips {s : List Char} (h : Sep s) (rest : List Char) : Skips (s ++ r
   induction h with
   | nil => exact .done _
   | ws c r hw _ ih => exact .ws c _ _ hw ih
-  | comment body d r hs hb hd _ ih =>
-    have : (body ++ d :: r) ++ rest = body ++ d :: (r ++ rest) := by simp
+  | comment body r hs hb _ ih =>
+    have : (body ++ '\n' :: r) ++ rest = body ++ '\n' :: (r ++ rest) := by simp
     rw [this]
-    refine .comment body d _ _ ?_ hb hd ih
-    have := isCommentStart_append hs (d :: (r ++ rest))
+    refine .comment body _ _ ?_ hb ih
+    have := isCommentStart_append hs ('\n' :: (r ++ rest))
     exact this
 
 theorem SepLast.skips {s : List Char} (h : SepLast s) : Skips s [] := by
   induction h with
   | sep s hs => simpa using hs.skips []
   | ws c r hw _ ih => exact .ws c _ _ hw ih
-  | comment body d r hs hb hd _ ih => exact .comment body d _ _ (isCommentStart_append hs _) hb hd ih
+  | comment body r hs hb _ ih => exact .comment body _ _ (isCommentStart_append hs _) hb ih
   | open_ body hs hb => exact .commentEnd body hs hb
 
 /-- The text of a layout: lexemes, each followed by its separator. -/
@@ -574,8 +579,9 @@ def body : List (Lexeme × List Char) → List Char
 def render (sep0 : List Char) (L : List (Lexeme × List Char)) : List Char := sep0 ++ body L
 
 /-- A layout is admissible when every `sep` really is a separator in its context (whitespace and
-comments, each comment closed by a newline unless it is the very end of the source) and what
-follows each lexeme is an admissible continuation for it (`needsSep`). -/
+comments, each comment closed by a newline unless it is the very end of the source; the text of a
+comment is arbitrary apart from containing no newline — it may contain NUL) and what follows each
+lexeme is an admissible continuation for it (`needsSep`). -/
 def LayoutOK : List (Lexeme × List Char) → Prop
   | [] => True
   | (l, sep) :: r => Skips (sep ++ body r) (body r) ∧ l.ok (sep ++ body r) ∧ LayoutOK r
